@@ -99,6 +99,8 @@ where
         while self.chunk_index < self.chunks.len() {
             let read_at = &self.chunks[self.chunk_index];
             if self.buf_offset >= read_at.size {
+                // A zero sized chunk is complete before anything has been read.
+                self.buf.truncate(read_at.size);
                 self.buf_offset = 0;
                 self.chunk_index += 1;
                 self.state = IoChunkReaderState::Seek;
